@@ -1104,7 +1104,7 @@ int _vnadata_load_touchstone(vnadata_internal_t *vdip, FILE *fp,
     if (next_token(&tps, F_NONE) == -1) {
 	goto out;
     }
-    while (tps.tps_token != T_EOL) {
+    while (tps.tps_token != T_EOL && tps.tps_token != T_EOF) {
 	switch (tps.tps_token) {
 	case T_OP_HZ:
 	    tps.tps_frequency_multiplier = 1.0;
